@@ -19,22 +19,43 @@
      CbExit     gil_release(); restore_errno();      (_cffi_backend.c:6298, call_python.c:278)
      CSet       C code assigns errno;  Clobber: Python-level activity changes the real errno.
 
+   Embedding (src/cffi/_embedding.h; threads in Emb are C threads that call the dll-exported
+   extern "Python" function of an embedded module; the function is `_cffi_call_python(..)`,
+   a pointer that is &_cffi_start_and_call_python until the module is initialised and
+   cffi_call_python afterwards):
+     boot       "no" | "run" | "done": nobody has entered _cffi_start_python yet (`called` = 0) /
+                one thread is running Py_InitializeEx + the init code under the re-entrant
+                mutex / `_cffi_call_python = _cffi_call_python_org` has been published
+     pend[t]    <<>>, or <<current_err, mode>> while thread t is inside
+                _cffi_start_and_call_python (_embedding.h:467)
+     EmbCall    boot = "done": the pointer is cffi_call_python already = CbEnter (save_errno)
+                otherwise   `int current_err = errno; fnptr = _cffi_start_python();` begins
+     EmbStart   whatever the start-up (Py_InitializeEx, imports, the init code, waiting for the
+                mutex held by the initialising thread) does to the real errno of the thread
+     EmbForward `errno = current_err; fnptr(externpy, args)` -> cffi_call_python: save_errno()
+                (the initialising thread publishes boot = "done"; the others can only get
+                the mutex after that)
+
    A thread in Raw starts inside C code that was not entered through cffi (base frame "raw").
    Variant selects deliberately broken variants which TLC must reject:
      "shared"       one saved errno for all threads (a lost __thread)
      "cb_nosave"    no save_errno() on callback entry
      "get_consumes" b_get_errno saves the cleared errno (ffi.errno readable only once)
      "glob_bare"    fetch_global_var_addr without restore/save
-     "cb_norestore" no restore_errno() on callback exit *)
+     "cb_norestore" no restore_errno() on callback exit
+     "emb_norestore" no `errno = current_err` before forwarding the first call(s) of an
+                    embedded module to cffi_call_python *)
 EXTENDS Naturals, Sequences, FiniteSets, TLC
-CONSTANTS Threads, Raw, Vals, Paths, Kinds, MaxLen, Variant
-VARIABLES real, saved, stk, obs
-vars == <<real, saved, stk, obs>>
+CONSTANTS Threads, Raw, Vals, Paths, Kinds, MaxLen, Variant,
+          Emb         \* subset of Threads: C threads that call into an embedded module
+VARIABLES real, saved, stk, obs, boot, pend
+vars == <<real, saved, stk, obs, boot, pend>>
 
 \* the slot of `saved` a thread uses: its own (faithful) or one for everybody
 S(t) == IF Variant = "shared" THEN CHOOSE u \in Threads : \A w \in Threads : u <= w ELSE t
 
-InC(t)  == Len(stk[t]) % 2 = 1
+Odd(t)  == Len(stk[t]) % 2 = 1
+InC(t)  == Odd(t) /\ pend[t] = <<>>      \* (not in the middle of _cffi_start_and_call_python)
 InPy(t) == Len(stk[t]) % 2 = 0
 Top(t) == stk[t][Len(stk[t])]
 Pop(s) == SubSeq(s, 1, Len(s) - 1)
@@ -44,50 +65,74 @@ Init == /\ real \in [Threads -> Vals]
         /\ saved = [t \in Threads |-> 0]
         /\ stk = [t \in Threads |-> IF t \in Raw THEN <<"raw">> ELSE <<>>]
         /\ obs = [t \in Threads |-> <<>>]
+        /\ boot = "no" /\ pend = [t \in Threads |-> <<>>]
+NoEmb == UNCHANGED <<boot, pend>>
 
-Set(t, v) == /\ InPy(t)
+Set(t, v) == /\ NoEmb /\ InPy(t)
              /\ saved' = [saved EXCEPT ![S(t)] = v]          \* errno = v; save_errno_only()
              /\ real' = [real EXCEPT ![t] = 0]               \* errno = 0
              /\ NoObs(t) /\ UNCHANGED stk
 
-Get(t) == /\ InPy(t)
+Get(t) == /\ NoEmb /\ InPy(t)
           /\ obs' = [obs EXCEPT ![t] = <<saved[S(t)]>>]      \* restore_errno_only(); err = errno
           /\ real' = [real EXCEPT ![t] = 0]                  \* errno = 0
           /\ saved' = IF Variant = "get_consumes" THEN [saved EXCEPT ![S(t)] = 0] ELSE saved
           /\ UNCHANGED stk
 
-Clobber(t, v) == /\ InPy(t) /\ real' = [real EXCEPT ![t] = v]
+Clobber(t, v) == /\ NoEmb /\ InPy(t) /\ real' = [real EXCEPT ![t] = v]
                  /\ NoObs(t) /\ UNCHANGED <<saved, stk>>
 
 Bare(p) == Variant = "glob_bare" /\ p = "glob"
 
-CallEnter(t, p) == /\ InPy(t) /\ Len(stk[t]) < MaxLen
+CallEnter(t, p) == /\ NoEmb /\ InPy(t) /\ Len(stk[t]) < MaxLen
                    /\ LET r == IF Bare(p) THEN real[t] ELSE saved[S(t)]     \* restore_errno()
                       IN real' = [real EXCEPT ![t] = r] /\ obs' = [obs EXCEPT ![t] = <<r>>]
                    /\ stk' = [stk EXCEPT ![t] = Append(@, p)]
                    /\ UNCHANGED saved
 
-CSet(t, v) == /\ InC(t) /\ real' = [real EXCEPT ![t] = v]
+CSet(t, v) == /\ NoEmb /\ InC(t) /\ real' = [real EXCEPT ![t] = v]
               /\ NoObs(t) /\ UNCHANGED <<saved, stk>>
 
-CallExit(t) == /\ InC(t) /\ Top(t) # "raw"
+CallExit(t) == /\ NoEmb /\ InC(t) /\ Top(t) # "raw"
                /\ saved' = IF Bare(Top(t)) THEN saved ELSE [saved EXCEPT ![S(t)] = real[t]]   \* save_errno()
                /\ stk' = [stk EXCEPT ![t] = Pop(@)]
                /\ NoObs(t) /\ UNCHANGED real
 
-CbEnter(t, k) == /\ InC(t) /\ Len(stk[t]) < MaxLen
+CbEnter(t, k) == /\ NoEmb /\ InC(t) /\ Len(stk[t]) < MaxLen
                  /\ saved' = IF Variant = "cb_nosave" THEN saved
                              ELSE [saved EXCEPT ![S(t)] = real[t]]          \* save_errno()
                  /\ stk' = [stk EXCEPT ![t] = Append(@, k)]
                  /\ NoObs(t) /\ UNCHANGED real
 
-CbExit(t) == /\ InPy(t) /\ Len(stk[t]) > 0
+CbExit(t) == /\ NoEmb /\ InPy(t) /\ Len(stk[t]) > 0
              /\ LET r == IF Variant = "cb_norestore" THEN real[t] ELSE saved[S(t)]   \* restore_errno()
                 IN real' = [real EXCEPT ![t] = r] /\ obs' = [obs EXCEPT ![t] = <<r>>]
              /\ stk' = [stk EXCEPT ![t] = Pop(@)]
              /\ UNCHANGED saved
 
-Step(t) == \/ \E v \in Vals : Set(t, v) \/ Clobber(t, v) \/ CSet(t, v)
+\* ---- a C thread calls the dll-exported function of an embedded module
+EmbCall(t) ==
+    /\ t \in Emb /\ InC(t) /\ Len(stk[t]) < MaxLen
+    /\ IF boot = "done"
+         THEN /\ saved' = [saved EXCEPT ![S(t)] = real[t]]        \* cffi_call_python: save_errno()
+              /\ stk' = [stk EXCEPT ![t] = Append(@, "emb")]
+              /\ NoObs(t) /\ UNCHANGED <<real, boot, pend>>
+         ELSE /\ pend' = [pend EXCEPT ![t] = <<real[t], IF boot = "no" THEN "emb1" ELSE "embw">>]
+              /\ boot' = "run"                                   \* called = 1 (first thread only)
+              /\ UNCHANGED <<real, saved, stk, obs>>
+EmbStart(t, v) == /\ pend[t] # <<>> /\ real' = [real EXCEPT ![t] = v]
+                  /\ UNCHANGED <<saved, stk, obs, boot, pend>>
+EmbForward(t) ==
+    /\ pend[t] # <<>> /\ (pend[t][2] = "emb1" \/ boot = "done")
+    /\ LET r == IF Variant = "emb_norestore" THEN real[t] ELSE pend[t][1]   \* errno = current_err
+       IN /\ real' = [real EXCEPT ![t] = r]
+          /\ saved' = [saved EXCEPT ![S(t)] = r]                  \* cffi_call_python: save_errno()
+    /\ stk' = [stk EXCEPT ![t] = Append(@, pend[t][2])]
+    /\ boot' = "done" /\ pend' = [pend EXCEPT ![t] = <<>>]
+    /\ NoObs(t)
+
+Step(t) == \/ \E v \in Vals : Set(t, v) \/ Clobber(t, v) \/ CSet(t, v) \/ EmbStart(t, v)
+           \/ EmbCall(t) \/ EmbForward(t)
            \/ Get(t) \/ CallExit(t) \/ CbExit(t)
            \/ \E p \in Paths : CallEnter(t, p)
            \/ \E k \in Kinds : CbEnter(t, k)
@@ -95,7 +140,9 @@ Next == \E t \in Threads : Step(t)
 Spec == Init /\ [][Next]_vars
 
 \* ------------------------------------------------------------------ refinement of the ideal
-eBar == [t \in Threads |-> IF InC(t) THEN <<real[t]>> ELSE <<saved[S(t)]>>]
+\* (during start-up the errno of the thread, as the property sees it, is the one its C caller had)
+eBar == [t \in Threads |-> IF pend[t] # <<>> THEN <<pend[t][1]>>
+                           ELSE IF Odd(t) THEN <<real[t]>> ELSE <<saved[S(t)]>>]
 Ideal == INSTANCE ErrnoIdeal WITH e <- eBar
 RefinesIdeal == Ideal!ISpec
 
@@ -105,6 +152,8 @@ NonInterference == [][\A t \in Threads : Step(t) => \A u \in Threads \ {t} : eBa
 
 TypeOK == /\ real \in [Threads -> Vals] /\ saved \in [Threads -> Vals]
           /\ \A t \in Threads : Len(stk[t]) <= MaxLen
+          /\ boot \in {"no", "run", "done"}
+          /\ \A t \in Threads : pend[t] # <<>> => t \in Emb /\ Odd(t) /\ pend[t][1] \in Vals
 \* the real errno is the thread's errno whenever C code runs; the saved copy whenever Python runs
 SavedIsPrivate == Variant # "shared" => \A t \in Threads : S(t) = t
 =============================================================================
